@@ -1,4 +1,88 @@
-import ZckModel.Reader
+/-
+C15 — A unit-decoded chunk is verified before any of its bytes are released.
+Theorems about the model of `comp_read` / `comp_end_dchunk` / `import_dict` (`Reader.lean`), for
+an ARBITRARY codec `D` (no hypothesis: it may return anything for corrupted input) and an
+arbitrary hash function `H`.
+-/
+import ZckModel.ReaderLemmas
 import ZckModel.Pred.Read
+
 namespace Zck.C15
+open Zck Zck.Format Zck.Reader
+
+/-- a sequence of `zck_read` calls with the given buffer sizes: all bytes written to the caller's
+buffers, in order (including whatever a failing call had already copied), and the final context -/
+def readCalls (H : HashFn) (D : Decomp) (f : Bytes) : Ctx → List Nat → Bytes × Ctx
+  | c, [] => ([], c)
+  | c, n :: ns =>
+    let r := compRead H D f c n
+    let rest := readCalls H D f r.2 ns
+    (r.1.bytes ++ rest.1, rest.2)
+
+/-- **sticky error**: once the context is in an error state a read returns -1 and no bytes -/
+theorem err_sticky (H : HashFn) (D : Decomp) (f : Bytes) (c : Ctx) (n : Nat) (h : c.err = true) :
+    compRead H D f c n = (⟨-1, []⟩, c) := by
+  unfold compRead; simp [h]
+
+theorem readCalls_err (H : HashFn) (D : Decomp) (f : Bytes) (c : Ctx) (ns : List Nat) (h : c.err = true) :
+    (readCalls H D f c ns).1 = [] := by
+  induction ns with
+  | nil => rfl
+  | cons n ns ih =>
+    simp only [readCalls, err_sticky H D f c n h, List.nil_append]
+    exact ih
+
+/-- **C15 (every history of reads)**: with unit-decoded chunks (any compression type other than
+"none"), for every file, every context satisfying the reader invariant and every sequence of
+buffer sizes, everything the calls hand out is a prefix of: what was already buffered, followed
+by decoded content of chunks whose stored bytes match their index checksum (`Good`). -/
+theorem calls_release_verified (H : HashFn) (D : Decomp) (f : Bytes) (hdr : Hdr) (hz : hdr.compType ≠ 0) :
+    ∀ (ns : List Nat) (c : Ctx), c.hdr = hdr → Inv c → InvD c →
+      ∃ G : List Bytes, (∀ p ∈ G, Good H D hdr p) ∧
+        ∃ rest, c.dc ++ G.flatten = (readCalls H D f c ns).1 ++ rest
+  | [], c, _, _, _ => ⟨[], by simp, c.dc, by simp [readCalls]⟩
+  | n :: ns, c, hh, hI, hD => by
+    obtain ⟨a1, a2, a3, a4⟩ := compRead_ok H D f c n (hh ▸ hz) hI hD
+    rw [hh] at a1 a4
+    simp only [readCalls]
+    rcases a4 with hrel | ⟨e1, e2, mid, rest, e3, e4⟩
+    · obtain ⟨G1, g1, q1⟩ := hrel
+      obtain ⟨G2, g2, rest2, q2⟩ := calls_release_verified H D f hdr hz ns _ a1 a2 a3
+      refine ⟨G1 ++ G2, ?_, rest2, ?_⟩
+      · intro p hp
+        rcases List.mem_append.mp hp with h | h
+        · exact g1 p h
+        · exact g2 p h
+      · rw [List.flatten_append, ← List.append_assoc, ← q1, List.append_assoc, q2, List.append_assoc]
+    · obtain ⟨G1, g1, q1⟩ := e3
+      refine ⟨G1, g1, rest, ?_⟩
+      rw [readCalls_err H D f _ ns e1, List.append_nil, ← q1, e4]
+
+/-- the context right after a successful open satisfies the reader invariant, with nothing buffered -/
+theorem openCtx_inv (h : Hdr) : Inv (openCtx h) ∧ InvD (openCtx h) ∧ (openCtx h).dc = [] := by
+  refine ⟨⟨Or.inr ⟨rfl, rfl⟩, fun _ => rfl⟩, fun _ _ _ _ => rfl, rfl⟩
+
+/-- **C15**: after opening a file whose chunks are decoded as a unit, no sequence of reads ever
+returns a byte that is not part of the decoded content of verified chunks, in order. -/
+theorem C15 (H : HashFn) (D : Decomp) (f : Bytes) (h : Hdr) (hz : h.compType ≠ 0) (ns : List Nat) :
+    ∃ G : List Bytes, (∀ p ∈ G, Good H D h p) ∧
+      ∃ rest, G.flatten = (readCalls H D f (openCtx h) ns).1 ++ rest := by
+  obtain ⟨i1, i2, i3⟩ := openCtx_inv h
+  obtain ⟨G, g, rest, q⟩ := calls_release_verified H D f h hz ns (openCtx h) rfl i1 i2
+  exact ⟨G, g, rest, by rw [← q, i3, List.nil_append]⟩
+
+/-- **the failing read and the ones after it**: a chunk end that does not verify ends the call
+with -1, empties the decoded buffer and leaves the context in the error state — so (by
+`err_sticky`) no later read yields that chunk's data either -/
+theorem bad_chunk_drops_buffer (H : HashFn) (D : Decomp) (c : Ctx) (ki : Nat) (ch : Chunk) (useDict : Bool)
+    (out : Bytes) (fin : Bool) (r : RdOut) (c' : Ctx)
+    (hbad : ∀ c2, endDchunk H D c ki ch useDict ≠ .ok c2)
+    (h : stepEnd H D c ki ch useDict out fin = .done r c') :
+    r.ret = -1 ∧ c'.dc = [] ∧ c'.err = true := by
+  unfold stepEnd at h
+  split at h
+  · simp only [Step.done.injEq] at h; obtain ⟨rfl, rfl⟩ := h; exact ⟨rfl, rfl, rfl⟩
+  · simp only [Step.done.injEq] at h; obtain ⟨rfl, rfl⟩ := h; exact ⟨rfl, rfl, rfl⟩
+  · rename_i c2 hok; exact absurd hok (hbad c2)
+
 end Zck.C15
